@@ -29,7 +29,8 @@ ASSUMPTIONS = ["SeqCst atomics, each fetch_add/fetch_sub/fetch_update is one ind
 TRUSTED = ["modelled not verified: tokio RwLock, ractor mailbox, iroh-gossip session life cycle, GossipHandle::clone/subscribe increments"]
 RULE = ("schedules are label lists (thread index | M = manager handles next message) over 2-4 threads each running "
         "'h = stream(topic); keep or drop h'; disabled labels are skipped and the rest runs to completion on both sides. quick: all "
-        "complete interleavings of the two-thread programs dk, dd, kd, kk after thread 0 finished its stream() alone (exhaustive), 30 "
+        "5 free-running races (2000 repetitions each: after a complete drop, 2-4 threads call the real Gossip::stream at once; every "
+        "returned handle must be backed), all complete interleavings of the two-thread programs dk, dd, kd, kk after thread 0 finished its stream() alone (exhaustive), 30 "
         "sampled interleavings each from a fully concurrent start, every interleaving of the fetch_sub / decision steps of two and three "
         "concurrent drops of the same topic's handles (counter 2 and 3, with and without a kept handle), 22 sampled interleavings for each of 6 three-thread programs x 2 "
         "sequential starts (counter 1 / counter 2), 40 random three-thread walks; thorough: two-thread exhaustive for both starts, 400 "
@@ -216,9 +217,15 @@ REAL_CASES = [
 ]
 
 
+# free-running races (no schedule control): after a complete drop, <threads> threads call the real Gossip::stream at once
+RACE_CASES = [{"race": 2000, "threads": 2}, {"race": 2000, "threads": 3}, {"race": 2000, "threads": 3}, {"race": 2000, "threads": 4}, {"race": 2000, "threads": 4}]
+
+
 def gen(tier, rng):
     quick = tier == "quick"
     for c in REAL_CASES:
+        yield dict(c)
+    for c in RACE_CASES:
         yield dict(c)
     for flags in ["dk", "dd", "kd", "kk"]:
         for prefix, cap in ((SEQ_START, None), ([], 30 if quick else None)):
@@ -264,7 +271,16 @@ def _labels(case):
     return out
 
 
+def _race_bad(impl):
+    if impl.startswith("race bad=") and "/" in impl:
+        k = impl[len("race bad="):].split("/")[0]
+        return int(k) if k.isdigit() else None
+    return None
+
+
 def harness_line(case):
+    if "race" in case:
+        return "race %d %d" % (case["race"], case["threads"])
     return "%s%s %s" % ("real " if case.get("real") else "", case["flags"], " ".join(str(l) for l in case["labels"]))
 
 
@@ -277,6 +293,9 @@ def _cflags(f):
 
 
 def coq_model(case):
+    if "race" in case:
+        # free-running: no model line to compare with; every outcome the model allows keeps all handles backed
+        return "model_line true %s %s" % (_cflags("d" + "k" * case["threads"]), _clabels(SEQ_START + [0, 0, 0, "M"]))
     return "model_line %s %s %s" % ("true" if FIXED else "false", _cflags(case["flags"]), _clabels(_labels(case)))
 
 
@@ -302,6 +321,10 @@ def _parse(impl):
 
 
 def coq_oracle(case, impl):
+    if "race" in case:
+        bad = _race_bad(impl)
+        # the property's first clause on the worst repetition: a kept handle must be backed by a live session
+        return "check [(%s, 1)] true [true] true" % ("true" if bad == 0 else "false")
     p = _parse(impl)
     if p is None:
         return "false"
@@ -314,10 +337,14 @@ def coq_oracle(case, impl):
 
 
 def _sim(case):
+    if "race" in case:
+        return Sim("", FIXED)
     return Sim(case["flags"], FIXED).run(_labels(case))
 
 
 def agree(case, impl, model):
+    if "race" in case:
+        return _race_bad(impl) is not None
     if not case.get("real"):
         return impl == model
     pi, pm = _parse(impl), _parse(model)
@@ -341,6 +368,8 @@ def known(case, impl):
 
 
 def shrink(case):
+    if "race" in case:
+        return
     ls = case["labels"]
     for i in range(len(ls) - 1, -1, -1):
         yield {"flags": case["flags"], "labels": ls[:i] + ls[i + 1:]}
@@ -353,6 +382,9 @@ def shrink(case):
 def distribution(cases, impl):
     d = {"threads": {}, "window_hit": 0, "overlap_late": 0, "overlap_concurrent": 0, "max_labels": 0, "fast_paths": 0, "slow_paths": 0}
     for i, c in enumerate(cases):
+        if "race" in c:
+            d["race_cases"] = d.get("race_cases", 0) + 1
+            continue
         k = str(len(c["flags"]))
         d["threads"][k] = d["threads"].get(k, 0) + 1
         s = _sim(c)
